@@ -148,8 +148,8 @@ func (x *Exec) eval(c *EvalCtx, e SExpr) Value {
 		case *types.Map:
 			mv := sliceBase(w.mapValSort(u))
 			content := x.heapRead(c.st, base.Term, base.T)
-			has := And(Neq(base.Term, IntT(0)), w.Reg.Apply("has:"+mv, content, idx.Term))
-			return Value{T: u.Elem(), Term: Ite(has, w.Reg.Apply("get:"+mv, content, idx.Term), w.ZeroTerm(u.Elem()))}
+			has := And(Neq(base.Term, IntT(0)), w.MapHas(mv, content, idx.Term))
+			return Value{T: u.Elem(), Term: Ite(has, w.MapGet(mv, content, idx.Term), w.ZeroTerm(u.Elem()))}
 		}
 		panic(c.errf(e, "cannot index %s", base.T))
 	case *SSlice:
@@ -422,6 +422,15 @@ func (x *Exec) maybeLocal(c *EvalCtx, name string) (Value, bool) {
 
 func (x *Exec) selectField(c *EvalCtx, base Value, sel string, e SExpr) Value {
 	t := types.Unalias(base.T)
+	if h := x.w.HolderType(base.T); h != nil && base.Term != nil && strings.HasPrefix(sel, "$") {
+		l := &Loc{Ref: base.Term, RootT: h}
+		for i, f := range x.w.StructFields(h) {
+			if f.Name == sel {
+				return x.readLoc(c.st, l.extend(PathStep{Field: i, FT: f.Type}))
+			}
+		}
+		panic(c.errf(e, "no ghost field %s on %s", sel, base.T))
+	}
 	if _, isPtr := t.Underlying().(*types.Pointer); isPtr || base.Loc != nil {
 		var l *Loc
 		if base.Loc != nil {
@@ -462,6 +471,14 @@ func (x *Exec) evalLocs(c *EvalCtx, e SExpr) []*Loc {
 	case *SSelect:
 		base := x.eval(c, n.X)
 		var l *Loc
+		if h := x.w.HolderType(base.T); h != nil && base.Term != nil && strings.HasPrefix(n.Sel, "$") {
+			hl := &Loc{Ref: base.Term, RootT: h}
+			for i, f := range x.w.StructFields(h) {
+				if f.Name == n.Sel {
+					return []*Loc{hl.extend(PathStep{Field: i, FT: f.Type})}
+				}
+			}
+		}
 		if base.Loc != nil {
 			l = base.Loc
 		} else if _, ok := types.Unalias(base.T).Underlying().(*types.Pointer); ok && base.Term != nil {
@@ -620,7 +637,7 @@ func (x *Exec) evalCall(c *EvalCtx, n *SCall) Value {
 		mt := types.Unalias(m.T).Underlying().(*types.Map)
 		mv := sliceBase(w.mapValSort(mt))
 		content := x.heapRead(c.st, m.Term, m.T)
-		return Value{T: boolT, Term: And(Neq(m.Term, IntT(0)), w.Reg.Apply("has:"+mv, content, k.Term))}
+		return Value{T: boolT, Term: And(Neq(m.Term, IntT(0)), w.MapHas(mv, content, k.Term))}
 	case "fresh":
 		if c.atCall {
 			panic(c.errf(n, "fresh(..) must not be used in a contract that is applied at call sites; use a `fresh r [when c]` clause"))
